@@ -316,6 +316,25 @@ func (f *FibStrategyHashTable) ClearNextHopsEnc(name enc.Name) {
 	}
 }
 
+// ReplaceNextHopsEnc atomically replaces all nexthops of the specified prefix
+// (FaceID -> Cost), so that concurrent lookups see either the old or the new set.
+func (f *FibStrategyHashTable) ReplaceNextHopsEnc(name enc.Name, nexthops map[uint64]uint64) {
+	f.fibStrategyRWMutex.Lock()
+	defer f.fibStrategyRWMutex.Unlock()
+
+	if len(nexthops) == 0 {
+		// Same as ClearNextHopsEnc
+		if entry, ok := f.realTable[name.Hash()]; ok {
+			entry.nexthops = make([]*FibNextHopEntry, 0)
+			f.pruneTables(entry)
+		}
+		return
+	}
+
+	realEntry := f.insertEntryEnc(name)
+	realEntry.nexthops = sortedNextHops(nexthops)
+}
+
 // RemoveNextHop removes the specified nexthop entry from the specified prefix
 
 func (f *FibStrategyHashTable) RemoveNextHopEnc(name enc.Name, nexthop uint64) {
